@@ -975,7 +975,7 @@ def generate_lifecycle(rng, noindex=False):
             sample += bytes([a]) * r.choice((1, s["cap"], s["cap"] + 2)) + b"|"
         for _ in range(r.choice((1, 2))):
             use = r.choice(("append", "append", "appc", "assign", "len" if noindex else "index", "len", "hook",
-                            "hook" if noindex else "indexvar"))
+                            "hook" if noindex else "indexvar", "highbyte"))
             if use == "append":
                 lo = r.choice((97, 103, 109))
                 body.append("%s += /[%s-%s]+/;" % (name, chr(lo), chr(lo + 5)))
@@ -987,6 +987,13 @@ def generate_lifecycle(rng, noindex=False):
                 body.append("%s = %s;" % (name, esc_str([r.choice(LETTERS) for _ in range(r.randrange(0, s["cap"] + 1))])))
             elif use == "index":
                 body.append("n1 = [%s[%d] + %s.len];" % (name, r.choice((0, 1, s["size"] - 1)), name))
+            elif use == "highbyte":
+                # store a byte >= 0x80 and read it back through an index that is inside the current length:
+                # the value must not depend on whether strings are char or uint8_t
+                body.append("delete %s;" % name)
+                body.append("%s += [%d];" % (name, r.choice((128, 200, 255))))
+                body.append("n0 = [%s[0] + 1];" % name)
+                body.append("if %s[0] > 100 { h1(); }" % name)
             elif use == "indexvar":
                 # an index computed at run time, below zero or beyond the end: the bounds check must make it read 0
                 body.append("n0 = [%s[n1 %s %d] + 1];" % (name, r.choice(("-", "-", "+")), r.choice((1, 3, 8, 300, 70000))))
@@ -1017,6 +1024,22 @@ def generate_regexprog(rng):
     blocked = set()
     for k in range(r.choice((1, 2, 2, 3))):
         a = None
+        if r.random() < 0.2:
+            # a regex with unescaped blanks between words: the documentation asks for `\ `, but the compiler accepts
+            # the text, and whatever it decides the blanks mean it has to decide the same way every time
+            words = [bytes(r.choice(LETTERS[:12]) for _ in range(r.choice((1, 2, 3)))) for _ in range(r.choice((2, 3, 4)))]
+            txt = "/" + " ".join(w.decode() for w in words) + "/"
+            a = Atom(txt, {words[0][0]}, set(), b" ".join(words))
+            extra = b"".join(words)
+            m = marks[k]
+            body.append(("s0 += %s;" if r.random() < 0.5 else "%s;") % a.text)
+            body.append("%s;" % esc_str([m]))
+            body.append("h0();")
+            samples.append(sample + extra + bytes([m]))
+            samples.append(sample + words[0] + b" " + b"".join(words[1:]) + bytes([m]))
+            sample += a.sample + bytes([m])
+            samples.append(sample)
+            continue
         for _ in range(10):
             a = rich_regex(r, blocked | set(marks), depth=r.choice((2, 3, 3)))
             if a is not None and not (a.open & set(marks)):
@@ -1038,7 +1061,7 @@ def generate_regexprog(rng):
         body = ["loop {"] + ["    " + x for x in body] + ["}"]
         samples.append(sample * 2)
     src = "\n".join(decl) + "\n\nparser {\n" + "\n".join("    " + x for x in body) + "\n}\n"
-    return {"source": src, "need": [], "canaries": {}, "samples": [s.hex() for s in samples[-3:]] or [sample.hex()], "near_miss": False,
+    return {"source": src, "need": [], "canaries": {}, "samples": [s.hex() for s in samples[-6:]] or [sample.hex()], "near_miss": False,
             "has_strings": True}
 
 
